@@ -89,19 +89,40 @@ def _init():
     H.bind(REC.BN128)
 
 
-def validate_recorder(ctx, n):
-    """Same explorer against the real snarkjs backend in a fresh process; traces must be identical."""
+def validate_recorder_start(n):
+    """Children are started before the in-process sweep and collected after it."""
     env = dict(os.environ, PYTHONHASHSEED="0")
     env.pop("PYSNARK_BACKEND", None)
+    procs = []
+    for which, seed, extra in (("recorder", "0", []), ("pysnark.snarkjsbackend", "0", []),
+                               ("recorder", "0", ["blocks"]), ("recorder", "1", ["blocks"]), ("recorder", "4242", ["blocks"])):
+        procs.append((which, seed, subprocess.Popen([common.PY, "-m", "pv.xbackend", which, str(n)] + extra, cwd=common.VERIF,
+                                                    env=dict(env, PYTHONHASHSEED=seed), stdout=subprocess.PIPE, stderr=subprocess.PIPE,
+                                                    text=True, start_new_session=True)))
+    return procs
+
+
+def validate_recorder_finish(ctx, procs):
+    """Same explorer against the real snarkjs backend in a fresh process; traces must be identical.  And the same
+    explorer (plus block programs) in three fresh interpreters with DIFFERENT string-hash seeds: the traces must not
+    depend on the iteration order of sets / dicts keyed by names."""
     outs = []
-    for which in ("recorder", "pysnark.snarkjsbackend"):
-        r = subprocess.run([common.PY, "-m", "pv.xbackend", which, str(n)], cwd=common.VERIF, env=env,
-                           capture_output=True, text=True, start_new_session=True)
-        if r.returncode != 0:
-            ctx.harness_errors.append("xbackend %s failed: %s" % (which, r.stderr[-300:]))
+    for which, seed, pr in procs:
+        so, se = pr.communicate()
+        if pr.returncode != 0:
+            ctx.harness_errors.append("xbackend %s (hash seed %s) failed: %s" % (which, seed, se[-300:]))
             return
-        outs.append(json.loads(r.stdout))
-    a, b = outs
+        outs.append(json.loads(so))
+    a, b = outs[0], outs[1]
+    seeded = outs[2:]
+    ctx.cov["hash_seed_runs"] = len(seeded)
+    ctx.cov["hash_seed_executions"] = sum(len(x) for x in seeded)
+    for other, seed in zip(seeded[1:], ("1", "4242")):
+        d2 = [k for k in seeded[0] if seeded[0][k] != other.get(k)]
+        if d2:
+            ctx.violation({"klass": "trace-depends-on-hash-seed", "first": d2[0].split("|")[0]}, {"keys": d2[:20], "seed": seed},
+                          "the same programs traced in interpreters with PYTHONHASHSEED=0 and PYTHONHASHSEED=%s emit different "
+                          "constraint systems for %d of %d executions (e.g. %s)" % (seed, len(d2), len(seeded[0]), d2[:1]))
     diff = [k for k in a if a[k] != b.get(k)]
     ctx.cov["traces_validated_against_impl"] = len(a) - len(diff)
     ctx.cov["recorder_vs_snarkjs_executions"] = len(a)
@@ -113,6 +134,7 @@ def validate_recorder(ctx, n):
 
 
 def run(ctx):
+    children = validate_recorder_start(3)
     progs = E.depth1_programs(include_fxp=True) + extra_programs()
     tasks = []
     # bitlength 65 / 128: values below and above the 64-bit word boundary must still give one trace
@@ -137,7 +159,7 @@ def run(ctx):
     ctx.cov["programs"] = len(tasks)
     ctx.cov["states"] = agg["distinct_traces"]
     ctx.cov["distinct_outcomes"] = agg["groups_with_2plus_runs"]
-    validate_recorder(ctx, 3)
+    validate_recorder_finish(ctx, children)
     ctx.cov["exhaustive"] = True
     ctx.cov["rule"] = ("program = depth-1 program (all operators x operand kinds incl. public inputs, assertions, "
                        "selection) or depth-2 composition; group = program + its public literals + mode class "
@@ -150,7 +172,19 @@ def run(ctx):
     ctx.sample({"program": "floordiv(S0, S1)", "group": "unguarded", "runs": 361 * 2, "distinct_traces": 1})
 
 
+class _Ctx:
+    def __init__(self):
+        self.cov, self.harness_errors, self.viols = {}, [], []
+
+    def violation(self, sig, case, what):
+        self.viols.append({"sig": sig, "what": what})
+
+
 def replay(case):
+    if "keys" in case:
+        c = _Ctx()
+        validate_recorder_finish(c, validate_recorder_start(3))
+        return {"cross_process_comparison": c.cov, "violations": c.viols, "harness_errors": c.harness_errors}
     H.bind(case["p"])
     prog = {"expr": X._tuplify(case["prog"]["expr"]), "kinds": list(case["prog"]["kinds"])}
     out = []
